@@ -45,6 +45,28 @@ CHECK_MODULES = {
 }
 
 
+# ---------------------------------------------------------------- environment matrix
+# A property holds in every legitimate environment of the server process, not only in the one the checks happen to be
+# started in.  After the main search every check re-runs a slice of itself (Hypothesis budgets divided by ENV_DIV, every
+# ENV_DIV-th case of each enumeration) in child processes that differ from the parent in exactly one respect.  A violation
+# found there is reported like any other; its replay file records the environment and `--replay` re-creates it.
+ENVIRONMENTS = [
+    ('tz_us_eastern', {'TZ': 'EST5EDT,M3.2.0,M11.1.0'}),
+    ('tz_kathmandu', {'TZ': 'NPT-5:45'}),
+    ('python_optimize', {'PYTHONOPTIMIZE': '1'}),
+    ('int_digits_unlimited', {'PYTHONINTMAXSTRDIGITS': '0'}),
+    ('custom_http_methods', {'FALCON_CUSTOM_HTTP_METHODS': 'PURGE,BAN'}),
+    ('warnings_are_errors', {'PYTHONWARNINGS': 'error'}),
+    ('hash_seed_other', {'PYTHONHASHSEED': '4242'}),
+]
+ENV_DIV = int(os.environ.get('VERIF_ENV_DIV', '8'))
+ENV_CHILD = os.environ.get('VERIF_ENV_CHILD') or None
+
+
+def _env_offset():
+    return int(hashlib.sha256((ENV_CHILD or '').encode()).hexdigest(), 16) % ENV_DIV
+
+
 def derive_seed(base, prop, suite, shard):
     h = hashlib.sha256(('%d|%s|%s|%d' % (base, prop, suite, shard)).encode()).digest()
     v = int.from_bytes(h[:4], 'big')
@@ -245,8 +267,14 @@ def _worker(task):
 
 
 def _run_enum(suite, tier, shard, nshards, known, stats):
+    kept = -1
     for i, case in enumerate(suite.cases(tier)):
-        if i % nshards != shard:
+        if ENV_CHILD:
+            # cases that exist only because of the environment (marked env_case) are never thinned out
+            if i % ENV_DIV != _env_offset() and not (isinstance(case, dict) and case.get('env_case')):
+                continue
+        kept += 1
+        if kept % nshards != shard:
             continue
         case = core.roundtrip(case)
         try:
@@ -501,6 +529,10 @@ def _write_replay(prop, suite_name, fail, tag=''):
             'violation': {'kind': fail['kind'], 'detail': fail['detail']}}
     if fail.get('history'):
         body['history'] = fail['history']
+    if ENV_CHILD:
+        body['env'] = dict(ENVIRONMENTS)[ENV_CHILD]
+        body['env_name'] = ENV_CHILD
+        tag = tag + 'env-%s-' % ENV_CHILD
     text = core.dumps(body, indent=1)
     name = '%s%s-%s.json' % (tag, suite_name, hashlib.sha1(core.dumps(fail['case']).encode()).hexdigest()[:12])
     path = os.path.join(d, name)
@@ -547,6 +579,11 @@ def main(argv):
 
     if argv[1] == '--replay':
         body = core.loads(open(argv[2]).read())
+        if body.get('env') and os.environ.get('VERIF_ENV_CHILD') != body.get('env_name'):
+            # the violation was found in another environment of the server process: re-create it
+            import subprocess
+            env = dict(os.environ, VERIF_ENV_CHILD=body['env_name'], **body['env'])
+            return subprocess.call([sys.executable, '-B', '-m', 'vf.run'] + list(argv), env=env)
         suite = by_name[body['suite']]
         suite.setup()
         try:
@@ -633,6 +670,8 @@ def main(argv):
             for k in range(nsh):
                 tasks.append(('enum', idx, tier, k, nsh, 0, 0))
         else:
+            if ENV_CHILD:
+                n = max(30, n // ENV_DIV)
             nsh = max(1, min(nsh, n // 50 or 1))
             per = (n + nsh - 1) // nsh
             for k in range(nsh):
@@ -660,7 +699,7 @@ def main(argv):
 
     # ---- coverage-guided campaigns (suites that provide fuzz_decode; thorough tier by default)
     fuzz_agg, fuzz_fail, fuzz_notes = ({}, None, [])
-    if not violations and not harness_errors and not any(r.get('fail') for r in results):
+    if not violations and not harness_errors and not any(r.get('fail') for r in results) and not ENV_CHILD:
         fuzz_agg, fuzz_fail, fuzz_notes = _run_fuzz_campaigns(prop, suites, tier, base_seed, known)
     for n in fuzz_notes:
         print('NOTE: ' + n)
@@ -707,17 +746,57 @@ def main(argv):
         print('  suite=%s %s: %s' % (s, kind, detail[:3000]))
         rc = 1
 
-    _write_evidence(prop, mod, suites, tier, base_seed, agg, wall, len(violations), known_lines,
-                    n_replays, complete=(rc == 0), notes=fuzz_notes)
     total = sum(a['evaluations'] for a in agg.values())
     nt = sum(len(a['nontrivial']) for a in agg.values())
+    env_report = {}
+    if ENV_CHILD:
+        print('ENV-SUMMARY ' + json.dumps({'evaluations': total, 'distinct_nontrivial': nt, 'suites': len(agg)}))
+    elif rc == 0 and os.environ.get('VERIF_ENVIRONMENTS', '1') != '0':
+        rc, env_report, env_violation = _run_environments(prop, tier, argv)
+        if env_violation:
+            violations.append(env_violation)
+        wall = time.time() - t0
+    _write_evidence(prop, mod, suites, tier, base_seed, agg, wall, len(violations), known_lines,
+                    n_replays, complete=(rc == 0), notes=fuzz_notes, environments=env_report)
     print('%s %s seed=%d: %d cases (%d distinct non-trivial) in %d suites, %.1fs, %s'
           % (prop, tier, base_seed, total, nt, len(agg), wall,
              'OK' if rc == 0 else ('VIOLATION' if rc == 1 else 'HARNESS-ERROR')))
     return rc
 
 
-def _write_evidence(prop, mod, suites, tier, seed, agg, wall, nviol, known_lines, n_replays, complete, notes=None):
+def _run_environments(prop, tier, argv):
+    """Re-run a slice of this check in child processes, one per entry of ENVIRONMENTS.  -> (rc, report, violation)"""
+    import subprocess
+    report = {}
+    skip = set(getattr(_CTX.get('mod'), 'SKIP_ENVIRONMENTS', ()))
+    for name, extra in ENVIRONMENTS:
+        if name in skip:
+            report[name] = {'env': extra, 'skipped': getattr(_CTX['mod'], 'SKIP_ENVIRONMENTS')[name]}
+            continue
+        env = dict(os.environ, VERIF_ENV_CHILD=name, VERIF_ENV_DIV=os.environ.get('VERIF_ENV_DIV') or ('8' if tier == 'quick' else '24'), **extra)
+        t1 = time.time()
+        r = subprocess.run([sys.executable, '-B', '-m', 'vf.run', prop, tier], env=env, stdout=subprocess.PIPE, stderr=subprocess.STDOUT, text=True)
+        out = r.stdout
+        summary = {}
+        for line in out.splitlines():
+            if line.startswith('ENV-SUMMARY '):
+                summary = json.loads(line[len('ENV-SUMMARY '):])
+        report[name] = dict(summary, env=extra, wall_s=round(time.time() - t1, 1), exit=r.returncode)
+        if r.returncode == 1:
+            lines = out.splitlines()
+            vi = [i for i, l in enumerate(lines) if l.startswith('VIOLATION property=')]
+            path = lines[vi[0]].split('replay=', 1)[1] if vi else '?'
+            detail = lines[vi[0] + 1].strip() if vi and vi[0] + 1 < len(lines) else ''
+            print('VIOLATION property=%s replay=%s' % (prop, path))
+            print('  in environment %s %r: %s' % (name, extra, detail[:3000]))
+            return 1, report, ('env:' + name, path, 'environment', detail)
+        if r.returncode != 0:
+            print('HARNESS-ERROR: environment %s %r: child exited %d\n%s' % (name, extra, r.returncode, out[-3000:]))
+            return 2, report, None
+    return 0, report, None
+
+
+def _write_evidence(prop, mod, suites, tier, seed, agg, wall, nviol, known_lines, n_replays, complete, notes=None, environments=None):
     total = sum(a['evaluations'] for a in agg.values())
     nt = sum(len(a['nontrivial']) for a in agg.values())
     samples = []
@@ -767,6 +846,7 @@ def _write_evidence(prop, mod, suites, tier, seed, agg, wall, nviol, known_lines
             'regression_replays_run': n_replays,
             'exhaustive': bool(per_suite) and all(v['exhaustive'] for v in per_suite.values()),
             'notes': list(notes or []),
+            'environments': environments or {},
             'source_fingerprint': boot.source_fingerprint(),
             'repo': boot.REPO,
         },
@@ -782,6 +862,9 @@ def _write_evidence(prop, mod, suites, tier, seed, agg, wall, nviol, known_lines
         fh.write('\n')
     # debugging runs (suite filter / alternative repo) never overwrite the real evidence
     debug = bool(os.environ.get('VERIF_SUITES')) or boot.REPO != os.path.realpath('/repo')
+    if ENV_CHILD:
+        os.replace(tmp, os.path.join(d, '.debug-env-%s-%s.json' % (ENV_CHILD, prop)))
+        return
     os.replace(tmp, os.path.join(d, ('.debug-%s.json' if debug else '%s.json') % prop))
 
 
